@@ -41,6 +41,11 @@ def run(ctx):
                     calls += [{"op": "counter_vec", "as": "m", "opts": {"name": name, "help": help_, "const_map": o}, "labels": vl}, {"op": "descs", "obj": "m"}]
                 else:
                     calls += [{"op": "gauge", "as": "m", "opts": {"name": name, "help": help_, "const": o}}, {"op": "descs", "obj": "m"}]
+                # ... and through the histogram constructors (a third construction path: HistogramOpts::describe)
+                if vl:
+                    calls += [{"op": "histogram_vec", "as": "hm", "opts": {"name": name, "help": help_, "const_map": o}, "labels": vl}, {"op": "descs", "obj": "hm"}]
+                else:
+                    calls += [{"op": "histogram", "as": "hm", "opts": {"name": name, "help": help_, "const": o}}, {"op": "descs", "obj": "hm"}]
                 jobs.append({"id": len(jobs), "calls": calls})
                 meta.append((ci, vi))
                 vi += 1
@@ -52,7 +57,7 @@ def run(ctx):
         rs = res[j["id"]]
         c = cases[ci]
         obs = []
-        for k in (0, 2):
+        for k in (0, 2, 4):
             if "ok" in rs[k] and "ok" not in rs[k + 1]:
                 ctx.violation("descriptor-unreadable", "the descriptor of a successfully built object could not be read: %s" % json.dumps(rs[k + 1])[:200], {"calls": j["calls"]})
                 obs.append(None)
@@ -65,6 +70,8 @@ def run(ctx):
             else:
                 obs.append(None)
         nvar += 1
+        if obs[2] is not None and obs[0] is not None and obs[2] != obs[0]:
+            ctx.violation("constructor-path-differs:histogram", "Desc::new and the histogram constructor disagree on identity/dimension for name=%r const=%r var=%r: %s vs %s" % (to_str(c["name"]), j["calls"][0]["const"], j["calls"][0]["var"], obs[0], obs[2]), {"calls": j["calls"]})
         if obs[0] != obs[1]:
             ctx.violation("constructor-path-differs", "Desc::new and the metric constructor disagree on identity/dimension for name=%r const=%r var=%r: %s vs %s" % (to_str(c["name"]), j["calls"][0]["const"], j["calls"][0]["var"], obs[0], obs[1]), {"calls": j["calls"]})
         prev = real.get(ci)
